@@ -223,9 +223,13 @@ def gen(tier, seed):
             "index <-> coordinates bijection with index = z*w*h + y*w + x; tuple / list / object / linear forms agree (%dx%dx%d, cell symbolic)" % (w, h, d), "i: int", timeout=180)
         add("c2i_%s" % tag, "c15-bijection", "coords_to_index(%d, %d, %d, 0, x, y, z)" % (w, h, d), ["pre: 0 <= x < %d and 0 <= y < %d and 0 <= z < %d" % (w, h, d)],
             "coordinates -> index -> coordinates (%dx%dx%d)" % (w, h, d), "x: int, y: int, z: int", timeout=180)
-        add("rej_i_%s" % tag, "c15-index-rejected", "index_rejected(%d, %d, %d, 0, i)" % (w, h, d), ["pre: i < 0 or i >= %d" % n],
-            "every linear index outside [0, %d) is rejected by every accessor (index symbolic, unbounded)" % n, "i: int", timeout=120,
+        add("rej_i_%s" % tag, "c15-index-rejected", "index_rejected(%d, %d, %d, 0, i)" % (w, h, d), ["pre: -64 <= i <= %d" % (n + 64), "pre: i < 0 or i >= %d" % n],
+            "every linear index in [-64, %d] outside [0, %d) is rejected by every accessor" % (n + 64, n), "i: int", timeout=120,
             viol="an out-of-range linear index is accepted")
+        if k <= 2:
+            add("rej_iu_%s" % tag, "c15-index-rejected", "index_rejected(%d, %d, %d, 0, i)" % (w, h, d), ["pre: i < 0 or i >= %d" % n],
+                "every linear index outside [0, %d) is rejected (index symbolic and UNBOUNDED: CrossHair searches for a counterexample; the error messages format the index, so the path tree cannot be exhausted)" % n,
+                "i: int", timeout=30, viol="an out-of-range linear index is accepted")
         add("rej_c_%s" % tag, "c15-coords-rejected", "coords_rejected(%d, %d, %d, 0, x, y, z)" % (w, h, d),
             ["pre: not (0 <= x < %d and 0 <= y < %d and 0 <= z < %d)" % (w, h, d), "pre: -3 <= x <= %d and -3 <= y <= %d and -3 <= z <= %d" % (w + 2, h + 2, d + 2)],
             "every coordinate triple outside the grid is rejected in tuple and object form (%dx%dx%d)" % (w, h, d), "x: int, y: int, z: int", timeout=180,
